@@ -14,7 +14,14 @@ NAMINGS = {
     "multi": {"a": "s0", "A": "S0", "b": "s1", "B": "S1", "c": "s2", "C": "S2", "d": "s3", "D": "S3"},
     "long": {"a": "word1", "A": "WORD1", "b": "word2", "B": "WORD2", "c": "word3", "C": "WORD3",
              "d": "word4", "D": "WORD4"},
+    # legal names (at least one letter, one case, none of '*()') that do not start with a letter
+    "digit": {"a": "1x", "A": "1X", "b": "2y", "B": "2Y", "c": "3z", "C": "3Z", "d": "4w", "D": "4W"},
+    # every other legal shape: leading underscore, letter in the middle, trailing digits, punctuation
+    "shapes": {"a": "_s", "A": "_S", "b": "0t0", "B": "0T0", "c": "x_1", "C": "X_1", "d": "-.q", "D": "-.Q"},
 }
+for _nm, _tab in NAMINGS.items():      # the upper-case name is the case swap of the lower-case one
+    for _l in "abcd":
+        assert _tab[_l].upper() == _tab[_l.upper()] and _tab[_l.upper()].lower() == _tab[_l] and _tab[_l] != _tab[_l.upper()]
 
 
 def swapcase(l):
